@@ -41,6 +41,292 @@ Section CallStructure.
 End CallStructure.
 
 (* ---------------------------------------------------------------------------------------------- *)
+(* dictionaries written through pset: every written name ends with its target value               *)
+(* ---------------------------------------------------------------------------------------------- *)
+Section Dict.
+  Variable F : Type.
+  Variable f0 : F.
+  Variable p0 : params F.          (* the untouched input values *)
+  Variable w : id -> F.            (* the value every write of a name carries *)
+
+  Lemma pget_pset (q : params F) x v y : pget F f0 (pset F q x v) y = if Pos.eqb y x then v else pget F f0 q y.
+  Proof.
+    induction q as [|[k u] tl IH]; cbn [pset pget].
+    - rewrite (Pos.eqb_sym x y). reflexivity.
+    - destruct (Pos.eqb_spec k x) as [->|Hne]; cbn [pget].
+      + rewrite (Pos.eqb_sym x y). destruct (Pos.eqb y x); reflexivity.
+      + rewrite IH. destruct (Pos.eqb_spec k y) as [->|Hky]; [|reflexivity].
+        destruct (Pos.eqb_spec y x); [congruence | reflexivity].
+  Qed.
+
+  (* written names hold their target; every name holds its target or its input value *)
+  Definition Inv (P : id -> Prop) (acc : params F) : Prop :=
+    forall x, (P x -> pget F f0 acc x = w x) /\ (pget F f0 acc x = w x \/ pget F f0 acc x = pget F f0 p0 x).
+
+  Lemma Inv_ext (P Q : id -> Prop) acc : (forall x, Q x -> P x) -> Inv P acc -> Inv Q acc.
+  Proof. intros H I x. destruct (I x) as [I1 I2]. split; [intros Hq; apply I1, H, Hq | exact I2]. Qed.
+
+  Lemma Inv_pset P acc x v : Inv P acc -> v = w x -> Inv (fun y => y = x \/ P y) (pset F acc x v).
+  Proof.
+    intros I Hv y. rewrite pget_pset. destruct (Pos.eqb_spec y x) as [->|Hne].
+    - split; [intros _; exact Hv | left; exact Hv].
+    - destruct (I y) as [I1 I2]. split; [intros [H|H]; [contradiction | apply I1, H] | exact I2].
+  Qed.
+
+  Lemma Inv_fold {A} (name : A -> id) (val : A -> F) (l : list A) : forall P acc,
+    Inv P acc -> (forall a, In a l -> val a = w (name a)) ->
+    Inv (fun y => (exists a, In a l /\ y = name a) \/ P y)
+        (fold_left (fun acc a => pset F acc (name a) (val a)) l acc).
+  Proof.
+    induction l as [|a tl IH]; intros P acc I H; cbn [fold_left].
+    - eapply Inv_ext; [|exact I]. intros x [[a [[] _]]|Hp]. exact Hp.
+    - eapply Inv_ext; [|apply (IH _ _ (Inv_pset P acc (name a) (val a) I (H a (or_introl eq_refl))))].
+      + intros x [[b [[<-|Hb] E]]|Hp]; [right; left; exact E | left; exists b; split; assumption | right; right; exact Hp].
+      + intros b Hb. apply H. right. exact Hb.
+  Qed.
+
+  Lemma Inv_fold2 (name : nat -> nat -> id) (val : nat -> nat -> F) (cols : nat -> list nat) (rows : list nat) :
+    forall P acc, Inv P acc -> (forall i j, In i rows -> In j (cols i) -> val i j = w (name i j)) ->
+    Inv (fun y => (exists i j, In i rows /\ In j (cols i) /\ y = name i j) \/ P y)
+        (fold_left (fun acc i => fold_left (fun acc j => pset F acc (name i j) (val i j)) (cols i) acc) rows acc).
+  Proof.
+    induction rows as [|i tl IH]; intros P acc I H; cbn [fold_left].
+    - eapply Inv_ext; [|exact I]. intros x [[a [c [[] _]]]|Hp]. exact Hp.
+    - assert (Hc : forall j, In j (cols i) -> val i j = w (name i j)) by (intros j Hj; apply H; [left; reflexivity | exact Hj]).
+      pose proof (Inv_fold (fun j => name i j) (fun j => val i j) (cols i) P acc I Hc) as I2.
+      eapply Inv_ext; [|apply (IH _ _ I2)].
+      + intros x [[a [c [[<-|Ha] [Hc' E]]]]|Hp].
+        * right. left. exists c. split; assumption.
+        * left. exists a, c. auto.
+        * right. right. exact Hp.
+      + intros a c Ha Hc'. apply H; [right; exact Ha | exact Hc'].
+  Qed.
+End Dict.
+
+(* ---------------------------------------------------------------------------------------------- *)
+(* the repaired initial estimates are valid, given what the oracles promise                       *)
+(* ---------------------------------------------------------------------------------------------- *)
+Section RepairValid.
+  Variable F : Type.
+  Variable f0 : F.
+  Variable is_psd : list (list F) -> bool.
+  Variable repair : list (list F) -> list (list F).
+  Variable p : params F.
+  Variable r : coll id.
+  Variable w : id -> F.
+  Notation bs := (joint_blocks r).
+  Notation nm V i j := (nth j (nth i V []) 1%positive).
+
+  (* the names nearest_valid_parameters writes: lower triangles of the blocks that fail the test *)
+  Definition written (x : id) : Prop :=
+    exists V row col, In V bs /\ is_psd (msubs F f0 p V) = false /\ row < length V /\ col <= row /\ x = nm V row col.
+
+  (* the oracle's promise, and the shape of symbolic covariance blocks *)
+  Hypothesis Hpost : forall A, is_psd A = false -> is_psd (repair A) = true.
+  Hypothesis Hsquare : forall V, In V bs -> forall row, In row V -> length row = length V.
+  Hypothesis Hsym : forall V i j, In V bs -> i < length V -> j < length V -> nm V i j = nm V j i.
+  Hypothesis Hrep_dims : forall V, In V bs -> is_psd (msubs F f0 p V) = false ->
+    length (repair (msubs F f0 p V)) = length V /\
+    forall row, In row (repair (msubs F f0 p V)) -> length row = length V.
+  (* blocks that share parameter names agree on the values they are given (w); a valid block sharing a
+     name with a repaired block keeps its value: w extends the input values on the valid blocks *)
+  Hypothesis Hw : forall V i j, In V bs -> is_psd (msubs F f0 p V) = false -> i < length V -> j < length V ->
+    fget F f0 (repair (msubs F f0 p V)) i j = w (nm V i j).
+  Hypothesis Hkeep : forall V i j, In V bs -> is_psd (msubs F f0 p V) = true -> i < length V -> j < length V ->
+    w (nm V i j) = pget F f0 p (nm V i j).
+
+  Lemma update_lower_Inv (V : list (list id)) (B : list (list F)) P acc :
+    Inv F f0 p w P acc -> (forall row col, row < length V -> col <= row -> fget F f0 B row col = w (nm V row col)) ->
+    Inv F f0 p w (fun y => (exists row col, row < length V /\ col <= row /\ y = nm V row col) \/ P y)
+        (update_lower F f0 acc V B).
+  Proof.
+    intros I H. unfold update_lower.
+    assert (G : forall rows P acc, Inv F f0 p w P acc -> (forall row, In row rows -> row < length V) ->
+              Inv F f0 p w (fun y => (exists row col, In row rows /\ col <= row /\ y = nm V row col) \/ P y)
+                  (fold_left (fun acc row => fold_left (fun acc col => pset F acc (nm V row col) (fget F f0 B row col))
+                                                       (seq 0 (S row)) acc) rows acc)).
+    { induction rows as [|row tl IH]; intros P' acc' I' Hr; cbn [fold_left].
+      - eapply Inv_ext; [|exact I']. intros x [[a [c [[] _]]]|Hp]. exact Hp.
+      - assert (Hcols : forall col, In col (seq 0 (S row)) -> fget F f0 B row col = w (nm V row col)).
+        { intros col Hc. apply in_seq in Hc. apply H; [apply Hr; left; reflexivity | lia]. }
+        pose proof (Inv_fold F f0 p w (fun col => nm V row col) (fun col => fget F f0 B row col) (seq 0 (S row)) P' acc' I' Hcols) as I2.
+        eapply Inv_ext; [|apply (IH _ _ I2)].
+        + intros x [[a [c [[<-|Ha] [Hc E]]]]|Hp].
+          * right. left. exists c. split; [apply in_seq; lia | exact E].
+          * left. exists a, c. auto.
+          * right. right. exact Hp.
+        + intros a Ha. apply Hr. right. exact Ha. }
+    eapply Inv_ext; [|apply (G (seq 0 (length V)) P acc I)].
+    - intros x [[a [c [Ha [Hc E]]]]|Hp]; [left; exists a, c; split; [apply in_seq; lia | auto] | right; exact Hp].
+    - intros row Hr. apply in_seq in Hr. lia.
+  Qed.
+
+  Lemma nearest_Inv : Inv F f0 p w written (nearest F f0 is_psd repair p r).
+  Proof.
+    unfold nearest.
+    assert (G : forall (l : list (list (list id))) P acc, (forall V, In V l -> In V bs) -> Inv F f0 p w P acc ->
+              Inv F f0 p w (fun y => (exists V row col, In V l /\ is_psd (msubs F f0 p V) = false /\ row < length V /\ col <= row /\ y = nm V row col) \/ P y)
+                  (fold_left (fun acc V => match nearest_psd F is_psd repair (msubs F f0 p V) with
+                                           | None => acc | Some B => update_lower F f0 acc V B end) l acc)).
+    { induction l as [|V tl IH]; intros P acc Hl I; cbn [fold_left].
+      - eapply Inv_ext; [|exact I]. intros x [[V [a [c [[] _]]]]|Hp]. exact Hp.
+      - unfold nearest_psd at 2. destruct (is_psd (msubs F f0 p V)) eqn:EV.
+        + eapply Inv_ext; [|apply (IH P acc (fun V' H' => Hl V' (or_intror H')) I)].
+          intros x [[V' [a [c [[<-|HV'] [Hi R]]]]]|Hp]; [congruence | left; exists V', a, c; auto | right; exact Hp].
+        + assert (HB : forall row col, row < length V -> col <= row ->
+                           fget F f0 (repair (msubs F f0 p V)) row col = w (nm V row col)).
+          { intros row col Hr Hc. apply Hw; [apply Hl; left; reflexivity | exact EV | exact Hr | lia]. }
+          pose proof (update_lower_Inv V (repair (msubs F f0 p V)) P acc I HB) as I2.
+          eapply Inv_ext; [|apply (IH _ _ (fun V' H' => Hl V' (or_intror H')) I2)].
+          intros x [[V' [a [c [[<-|HV'] [Hi [Ha [Hc E]]]]]]]|Hp].
+          -- right. left. exists a, c. auto.
+          -- left. exists V', a, c. auto.
+          -- right. right. exact Hp. }
+    eapply Inv_ext; [|apply (G bs (fun _ => False) p (fun V H => H))].
+    - intros x H. left. exact H.
+    - intros x. split; [intros [] | right; reflexivity].
+  Qed.
+
+  (* every block of the repaired estimates passes the test *)
+  Lemma nearest_valid_lemma : validate F f0 is_psd (nearest F f0 is_psd repair p r) r = true.
+  Proof.
+    unfold validate. apply forallb_forall. intros V HV. pose proof nearest_Inv as I.
+    set (p' := nearest F f0 is_psd repair p r) in *.
+    destruct (is_psd (msubs F f0 p V)) eqn:EV.
+    - (* a block that was valid keeps its values *)
+      assert (E : msubs F f0 p' V = msubs F f0 p V); [|rewrite E; exact EV].
+      unfold msubs. apply (nth_ext _ _ [] []); [rewrite !map_length; reflexivity|]. intros i Hi. rewrite map_length in Hi.
+      rewrite !(nth_indep (map _ V) [] (map (pget F f0 p') [])) by (rewrite map_length; exact Hi).
+      rewrite (map_nth (map (pget F f0 p')) V [] i).
+      rewrite (nth_indep (map (map (pget F f0 p)) V) (map (pget F f0 p') []) (map (pget F f0 p) [])) by (rewrite map_length; exact Hi).
+      rewrite (map_nth (map (pget F f0 p)) V [] i).
+      apply map_ext_in. intros x Hx.
+      assert (Hrow : length (nth i V []) = length V) by (apply Hsquare; [exact HV | apply nth_In; exact Hi]).
+      destruct (In_nth _ _ 1%positive Hx) as [j [Hj0 Ej]]. assert (Hj : j < length V) by (rewrite <- Hrow; exact Hj0). subst x.
+      destruct (I (nm V i j)) as [_ [I2|I2]]; [etransitivity; [exact I2 | apply Hkeep; assumption] | exact I2].
+    - (* a repaired block holds exactly the repaired matrix *)
+      destruct (Hrep_dims V HV EV) as [RL RR].
+      assert (E : msubs F f0 p' V = repair (msubs F f0 p V)); [|rewrite E; apply Hpost; exact EV].
+      unfold msubs at 1. apply (nth_ext _ _ [] []); [rewrite map_length, RL; reflexivity|]. intros i Hi. rewrite map_length in Hi.
+      rewrite (nth_indep (map _ V) [] (map (pget F f0 p') [])) by (rewrite map_length; exact Hi).
+      rewrite (map_nth (map (pget F f0 p')) V [] i).
+      assert (Hrow : length (nth i V []) = length V) by (apply Hsquare; [exact HV | apply nth_In; exact Hi]).
+      apply (nth_ext _ _ f0 f0); [rewrite map_length, Hrow; symmetry; apply RR, nth_In; rewrite RL; exact Hi|].
+      intros j Hj. rewrite map_length, Hrow in Hj.
+      rewrite (nth_indep (map _ _) f0 (pget F f0 p' 1%positive)) by (rewrite map_length, Hrow; exact Hj).
+      rewrite (map_nth (pget F f0 p') (nth i V []) 1%positive j).
+      change (nth j (nth i (repair (msubs F f0 p V)) []) f0) with (fget F f0 (repair (msubs F f0 p V)) i j).
+      rewrite (Hw V i j HV EV Hi Hj). destruct (I (nm V i j)) as [I1 _]. apply I1.
+      destruct (Nat.le_gt_cases j i) as [Hle|Hgt].
+      + exists V, i, j. auto.
+      + rewrite (Hsym V i j HV Hi Hj). exists V, j, i. repeat split; auto; lia.
+  Qed.
+End RepairValid.
+
+(* Model.create / Model.replace: every combination of replaced attributes ends canonicalised, hence valid *)
+Section Replace.
+  Variable F : Type.
+  Variable f0 : F.
+  Variable is_psd : list (list F) -> bool.
+  Variable repair : list (list F) -> list (list F).
+
+  Lemma model_replace_canonicalised_lemma (p_old : params F) (r_old : coll id) p_new r_new :
+    model_replace F f0 is_psd repair p_old r_old p_new r_new =
+    (canonicalize F f0 is_psd repair (match p_new with Some q => q | None => p_old end)
+                                     (match r_new with Some q => q | None => r_old end),
+     match r_new with Some q => q | None => r_old end).
+  Proof. reflexivity. Qed.
+
+  Notation nm V i j := (nth j (nth i V []) 1%positive).
+  (* what the oracles promise and the shape of the blocks, for the pair (p, r) handed to canonicalisation *)
+  Definition repair_ok (p : params F) (r : coll id) (w : id -> F) : Prop :=
+    (forall A, is_psd A = false -> is_psd (repair A) = true) /\
+    (forall V, In V (joint_blocks r) -> forall row, In row V -> length row = length V) /\
+    (forall V i j, In V (joint_blocks r) -> i < length V -> j < length V -> nm V i j = nm V j i) /\
+    (forall V, In V (joint_blocks r) -> is_psd (msubs F f0 p V) = false ->
+       length (repair (msubs F f0 p V)) = length V /\
+       forall row, In row (repair (msubs F f0 p V)) -> length row = length V) /\
+    (forall V i j, In V (joint_blocks r) -> is_psd (msubs F f0 p V) = false -> i < length V -> j < length V ->
+       fget F f0 (repair (msubs F f0 p V)) i j = w (nm V i j)) /\
+    (forall V i j, In V (joint_blocks r) -> is_psd (msubs F f0 p V) = true -> i < length V -> j < length V ->
+       w (nm V i j) = pget F f0 p (nm V i j)).
+
+  Lemma canonicalize_valid_lemma (p : params F) (r : coll id) (w : id -> F) :
+    repair_ok p r w -> validate F f0 is_psd (canonicalize F f0 is_psd repair p r) r = true.
+  Proof.
+    intros [H1 [H2 [H3 [H4 [H5 H6]]]]]. unfold canonicalize.
+    destruct (validate F f0 is_psd p r) eqn:V; [exact V|].
+    apply (nearest_valid_lemma F f0 is_psd repair p r w); assumption.
+  Qed.
+
+  Lemma model_replace_valid_lemma (p_old : params F) (r_old : coll id) p_new r_new (w : id -> F) :
+    repair_ok (match p_new with Some q => q | None => p_old end) (match r_new with Some q => q | None => r_old end) w ->
+    validate F f0 is_psd (fst (model_replace F f0 is_psd repair p_old r_old p_new r_new))
+                         (snd (model_replace F f0 is_psd repair p_old r_old p_new r_new)) = true.
+  Proof. intros H. rewrite model_replace_canonicalised_lemma. cbn [fst snd]. apply (canonicalize_valid_lemma _ _ w H). Qed.
+End Replace.
+
+(* ---------------------------------------------------------------------------------------------- *)
+(* parameters_sdcorr on a whole collection: reads the input values, writes a copy                  *)
+(* ---------------------------------------------------------------------------------------------- *)
+Definition vcols (V : list (list id)) : nat := match V with [] => 0 | row :: _ => length row end.
+
+Section SdcorrColl.
+  Variable F : Type.
+  Variable f0 : F.
+  Variables fmul fdiv : F -> F -> F.
+  Variable fsqrt : F -> F.
+  Variable fis0 : F -> bool.
+  Variable values : params F.
+  Variable w : id -> F.
+  Notation nm V i j := (nth j (nth i V []) 1%positive).
+  Notation sdb V := (sdcorr_block F f0 fmul fdiv fsqrt fis0 (msubs F f0 values V)).
+
+  (* the names the joint blocks write *)
+  Definition jwritten (r : coll id) (x : id) : Prop :=
+    exists ns l mu V i j, In (Joint ns l mu V) r /\ i < length V /\ j < vcols V /\ x = nm V i j.
+
+  Lemma sdcorr_params_Inv (r : coll id) :
+    (forall ns l mu V i j, In (Joint ns l mu V) r -> i < length V -> j < vcols V -> fget F f0 (sdb V) i j = w (nm V i j)) ->
+    (forall n l m v, In (Normal n l m v) r -> fsqrt (pget F f0 values v) = w v) ->
+    Inv F f0 values w (jwritten r) (sdcorr_params F f0 fmul fdiv fsqrt fis0 values r).
+  Proof.
+    intros HJ HN. unfold sdcorr_params.
+    assert (G : forall (l : coll id) P acc, (forall d, In d l -> In d r) -> Inv F f0 values w P acc ->
+              Inv F f0 values w (fun y => jwritten l y \/ P y)
+                (fold_left (fun acc d =>
+                   match d with
+                   | Joint _ _ _ V =>
+                       fold_left (fun acc i => fold_left (fun acc j => pset F acc (nm V i j) (fget F f0 (sdb V) i j))
+                                                         (seq 0 (vcols V)) acc) (seq 0 (length V)) acc
+                   | Normal _ _ _ v => if pmem F acc v then pset F acc v (fsqrt (pget F f0 values v)) else acc
+                   end) l acc)).
+    { induction l as [|d tl IH]; intros P acc Hl I; cbn [fold_left].
+      - eapply Inv_ext; [|exact I]. intros x [[ns [l [mu [V [i [j [[] _]]]]]]]|Hp]. exact Hp.
+      - destruct d as [n l m v | ns l mu V].
+        + assert (I2 : Inv F f0 values w P (if pmem F acc v then pset F acc v (fsqrt (pget F f0 values v)) else acc)).
+          { destruct (pmem F acc v); [|exact I].
+            eapply Inv_ext; [|apply (Inv_pset F f0 values w P acc v _ I), (HN n l m v), Hl; left; reflexivity].
+            intros x Hp. right. exact Hp. }
+          eapply Inv_ext; [|apply (IH P _ (fun d Hd => Hl d (or_intror Hd)) I2)].
+          intros x [[ns [l' [mu [V [i [j [[Hd|Hd] R]]]]]]]|Hp]; [discriminate | left; exists ns, l', mu, V, i, j; auto | right; exact Hp].
+        + assert (Hv : forall i j, In i (seq 0 (length V)) -> In j (seq 0 (vcols V)) -> fget F f0 (sdb V) i j = w (nm V i j)).
+          { intros i j Hi Hj. apply in_seq in Hi. apply in_seq in Hj.
+            apply (HJ ns l mu V i j); [apply Hl; left; reflexivity | lia | lia]. }
+          pose proof (Inv_fold2 F f0 values w (fun i j => nm V i j) (fun i j => fget F f0 (sdb V) i j)
+                        (fun _ => seq 0 (vcols V)) (seq 0 (length V)) P acc I Hv) as I2.
+          eapply Inv_ext; [|apply (IH _ _ (fun d Hd => Hl d (or_intror Hd)) I2)].
+          intros x [[ns' [l' [mu' [V' [i [j [[Hd|Hd] [Hi [Hj E]]]]]]]]]|Hp].
+          * inversion Hd; subst. right. left. exists i, j. split; [apply in_seq; lia | split; [apply in_seq; lia | reflexivity]].
+          * left. exists ns', l', mu', V', i, j. auto.
+          * right. right. exact Hp. }
+    eapply Inv_ext; [|apply (G r (fun _ => False) values (fun d H => H))].
+    - intros x H. left. exact H.
+    - intros x. split; [intros [] | right; reflexivity].
+  Qed.
+End SdcorrColl.
+
+(* ---------------------------------------------------------------------------------------------- *)
 (* the real instance                                                                              *)
 (* ---------------------------------------------------------------------------------------------- *)
 Local Open Scope R_scope.
@@ -220,6 +506,61 @@ Proof.
   - unfold se_from_cov. rewrite (nth_indep _ 0%R (sqrt 0)) by (rewrite map_length, rdiagv_length, Hlc; exact Hi).
     rewrite (map_nth sqrt). rewrite rdiagv_nth by (rewrite Hlc; exact Hi). apply Hs. exact Hi.
 Qed.
+
+Local Open Scope R_scope.
+(* parameters_sdcorr of a whole collection (blocks may share parameter names: every name is written
+   with one value w): sd_i * corr_ij * sd_j read back from the RESULT gives the input covariance *)
+Lemma rget_msubs (p : params R) (V : list (list id)) i j : (i < length V)%nat -> (j < length (nth i V []))%nat ->
+  rget (msubs R 0 p V) i j = pget R 0 p (nth j (nth i V []) 1%positive).
+Proof.
+  intros Hi Hj. unfold fget, msubs.
+  rewrite (nth_indep (map _ V) [] (map (pget R 0 p) [])) by (rewrite map_length; exact Hi).
+  rewrite (map_nth (map (pget R 0 p)) V [] i).
+  rewrite (nth_indep (map _ _) 0 (pget R 0 p 1%positive)) by (rewrite map_length; exact Hj).
+  rewrite (map_nth (pget R 0 p)). reflexivity.
+Qed.
+
+Lemma sdcorr_collection_inverse_lemma (p : params R) (r : coll id) (w : id -> R) ns l mu (V : list (list id)) i j :
+  (forall ns l mu V i j, In (Joint ns l mu V) r -> (i < length V)%nat -> (j < vcols V)%nat ->
+     rget (sdcorr_block R 0 Rmult Rdiv sqrt ris0 (msubs R 0 p V)) i j = w (nth j (nth i V []) 1%positive)) ->
+  (forall n l m v, In (Normal n l m v) r -> sqrt (pget R 0 p v) = w v) ->
+  In (Joint ns l mu V) r -> (forall row, In row V -> length row = length V) ->
+  (forall k, (k < length V)%nat -> 0 < pget R 0 p (nth k (nth k V []) 1%positive)) ->
+  (i < length V)%nat -> (j < length V)%nat ->
+  let p' := sdcorr_params R 0 Rmult Rdiv sqrt ris0 p r in
+  let sd := fun k => pget R 0 p' (nth k (nth k V []) 1%positive) in
+  (if Nat.eqb i j then sd i * sd i else sd i * pget R 0 p' (nth j (nth i V []) 1%positive) * sd j) =
+  pget R 0 p (nth j (nth i V []) 1%positive).
+Proof.
+  intros HJ HN HV Hsq Hpos Hi Hj p' sd.
+  pose proof (sdcorr_params_Inv R 0 Rmult Rdiv sqrt ris0 p w r HJ HN) as I.
+  assert (Hc : vcols V = length V).
+  { unfold vcols. destruct V as [|row V']; [cbn in Hi; lia|]. apply Hsq. left. reflexivity. }
+  assert (Hrow : forall a, (a < length V)%nat -> length (nth a V []) = length V) by (intros a Ha; apply Hsq, nth_In; exact Ha).
+  assert (Hlen : length (msubs R 0 p V) = length V) by (unfold msubs; apply map_length).
+  assert (Val : forall a b, (a < length V)%nat -> (b < length V)%nat ->
+            pget R 0 p' (nth b (nth a V []) 1%positive) =
+            if Nat.eqb a b then sqrt (pget R 0 p (nth b (nth a V []) 1%positive))
+            else rget (rcov2corr (msubs R 0 p V)) a b).
+  { intros a b Ha Hb. destruct (I (nth b (nth a V []) 1%positive)) as [I1 _]. unfold p'.
+    rewrite I1 by (exists ns, l, mu, V, a, b; rewrite Hc; auto).
+    rewrite <- (HJ ns l mu V a b HV Ha) by (rewrite Hc; exact Hb).
+    unfold sdcorr_block. rewrite Hlen, rget_rtab by assumption.
+    destruct (Nat.eqb a b); [|reflexivity]. rewrite rget_msubs by (rewrite ?Hrow; assumption). reflexivity. }
+  assert (A : forall a b, (a < length V)%nat -> (b < length V)%nat ->
+            rget (msubs R 0 p V) a b = pget R 0 p (nth b (nth a V []) 1%positive)).
+  { intros a b Ha Hb. apply rget_msubs; [exact Ha | rewrite Hrow; assumption]. }
+  unfold sd. rewrite !Val by assumption. rewrite !Nat.eqb_refl.
+  pose proof (Hpos i Hi) as Pi. pose proof (Hpos j Hj) as Pj.
+  destruct (Nat.eqb_spec i j) as [->|Hne].
+  - apply sqrt_sqrt. lra.
+  - rewrite rget_cov2corr by (rewrite Hlen; assumption). rewrite !A by assumption.
+    pose proof (sqrt_lt_R0 _ Pi) as Si. pose proof (sqrt_lt_R0 _ Pj) as Sj.
+    destruct (ris0 (pget R 0 p (nth j (nth i V []) 1%positive))) eqn:Z.
+    + apply ris0_true in Z. rewrite Z. lra.
+    + field. split; lra.
+Qed.
+Local Open Scope nat_scope.
 
 (* ---- UCP scaling -------------------------------------------------------------------------------- *)
 Lemma rget_tril A i j : i < length A -> j < length A -> rget (rtril A) i j = if j <=? i then rget A i j else 0%R.
